@@ -255,37 +255,6 @@ def _fact_checks(H, rec, c, label, make, D, kap, cfgname, cfg0, role, tier):
             else:
                 err = float(torch.linalg.matrix_norm(Dm @ (R64 @ R64.mT) - I).max()) / max(1.0, kap)
                 rec.check(grp, lab, err <= tau_inv / max(1.0, kap) + tau, f"direct method (log {sorted(algos)}): ||A R R^T - I||/kappa = {err:.2e} (kappa={kap:.1e})")
-    if full and N > 1:
-        # Lanczos inverse root started from caller-supplied vectors: the space must contain the start vector
-        for nv in (1, 2):
-            lab = f"{label}|cfg={cfgname}|method=lanczos|initial_vectors={nv}"
-            grp = f"root_inv_decomposition[lanczos,init]/{c.name}"
-            g = zoo.gen(55 + nv)
-            iv = zoo.rn(g, *batch, N, nv, dtype=dt)
-            tv = zoo.rn(g, *batch, N, nv, dtype=dt)
-            op, _ = make()
-            ok, Rop, algos = run(grp, lab, lambda: op.root_inv_decomposition(initial_vectors=iv, test_vectors=tv, method="lanczos").root)
-            if not ok:
-                continue
-            R = dn(Rop)
-            if not (torch.is_tensor(R) and R.dim() == D.dim() and R.shape[-2] == N and tuple(R.shape[:-2]) == batch):
-                rec.check(grp, lab, False, f"inverse root has shape {tuple(R.shape) if torch.is_tensor(R) else type(R)}; expected (*{batch}, {N}, k)")
-                continue
-            if not bool(torch.isfinite(R).all()):
-                rec.check(grp, lab, False, "non-finite entries in the inverse root")
-                continue
-            if "lanczos" in algos:
-                compression_checks(grp, lab, R.to(f64), Dinv, True, algos)
-                if nv == 1:
-                    worst = 0.0
-                    for b, Q in enumerate(range_basis(R)):
-                        q0 = iv.to(f64).reshape(-1, N, 1)[b][:, 0]
-                        worst = max(worst, float((q0 - Q @ (Q.mT @ q0)).norm() / q0.norm()))
-                    rec.check(grp, lab, worst <= (1e-6 if dt == f64 else 1e-3), f"the Krylov space does not contain the supplied initial vector (distance {worst:.2e})")
-            else:
-                err = float(torch.linalg.matrix_norm(Dm @ (R.to(f64) @ R.to(f64).mT) - I).max()) / max(1.0, kap)
-                rec.check(grp, lab, err <= tau_inv / max(1.0, kap) + tau, f"||A R R^T - I||/kappa = {err:.2e}")
-
     # ------------------------------------------------------------------ diagonalization / eigh / eigvalsh
     def eig_checks(grp, lab, w, Q, algos, lanczos_ok):
         if Q is None or w is None:
@@ -447,6 +416,6 @@ RTC_META = {
     ],
     "families": "28 PSD zoo + 42 local PSD cases x dtypes x batch {(),(2,),(1,),(2,3)} x sizes {1,2,4,6} x 9 settings combinations (max_cholesky_size 0/N-1/N/default, "
                 "fast covar_root_decomposition, max_root_decomposition_size N / max(2,N-2) / default, linalg dtypes) x cholesky(upper T/F) x 7 root methods x 7 inverse-root "
-                "methods (+ caller-supplied initial vectors) x 3 diagonalization methods x eigh/eigvalsh/svd via methods, torch.linalg.* and functional entry points; "
+                "methods x 3 diagonalization methods x eigh/eigvalsh/svd via methods, torch.linalg.* and functional entry points; "
                 "histories (both orientations from one operator, eigh twice, eigvalsh/diagonalization before eigh); default dtype float64 with float32 operators.",
 }
